@@ -204,6 +204,10 @@ def run_server(kconfig, sdkconfig, sdkconfig_rename, default_version=MAX_PROTOCO
                 # V1 response, invisible items have value None
                 for k in (k for (k, v) in visible_diff.items() if not v):
                     values_diff[k] = None
+                # An item that becomes visible again replaces the None sent when it was hidden,
+                # also if its value is the same as before it was hidden
+                for k in (k for (k, v) in visible_diff.items() if v and k in after):
+                    values_diff.setdefault(k, after[k])
                 response = {"version": 1, "values": values_diff, "ranges": ranges_diff}
             else:
                 # V2+ response, separate visibility values
